@@ -419,17 +419,32 @@ def o_totality(case):
     net = NET(code)
     d, comp = case["d"], bool(case["compressed"])
     msg = build_msg(case["msg"])
+    z = M.magic_hash(magic(code), msg)
+    cls, a, b = case["cls"], case["a"], case["b"]
+    endo = None
+    if cls == "same-y-recovery" and z % N:
+        # a VALID signature whose key, nonce and message hash are related so that the two points public-key recovery adds,
+        # s*R and -z*G, are distinct points with the same ordinate (multiplication by a cube root of unity mod n keeps y on
+        # secp256k1): s = -lambda^j z / k, which is the signature with nonce k of the key d = lambda^2j z / r
+        k = b % (N - 1) + 1
+        Rk = M.CURVE.mul_fast(k, M.CURVE.G)
+        lam = pow(0x5363ad4cc05c30e0a5261c028812645a122e22ea20816678df02967c1b23bd72, 1 + a % 2, N)
+        if Rk[0] % N and Rk[0] < N:
+            d = z * lam * lam % N * pow(Rk[0], -1, N) % N
+            endo = (Rk[0], -lam * z % N * pow(k, -1, N) % N, Rk[1] & 1)
     key = net.keys.private(secret_exponent=d, is_compressed=comp)
     Q = M.CURVE.mul_fast(d, M.CURVE.G)
-    z = M.magic_hash(magic(code), msg)
     r, s, recid = M.sign(d, z)
     if r == 0 or s == 0:
         return ["out-of-reach:degenerate-signature"]
     good = M.compact(27 + recid + (4 if comp else 0), r, s)
-    cls, a, b = case["cls"], case["a"], case["b"]
     payload, text = None, None
     hdr_ok = 27 + (a % 8)
-    if cls == "header":
+    if cls == "same-y-recovery":
+        if endo is None:
+            return ["out-of-reach:degenerate-signature"]
+        payload = M.compact(27 + endo[2] + (4 if comp else 0), endo[0], endo[1])
+    elif cls == "header":
         payload = M.compact(HEADER_POOL[a % len(HEADER_POOL)], r, s)
     elif cls == "r-special":
         specials = [0, N, M.P, 2**256 - 1, N - 1, N + 1, M.P - 1, M.P + 1, 1, (r + N) % 2**256, nopoint_x(b), point_x(b), nopoint_x(r + 1)]
@@ -523,7 +538,7 @@ def o_totality(case):
 
 
 def s_totality():
-    classes = st.sampled_from(["header", "header", "r-special", "r-special", "s-special", "infinity-key", "random65", "random65", "length",
+    classes = st.sampled_from(["header", "header", "r-special", "r-special", "s-special", "infinity-key", "same-y-recovery", "random65", "random65", "length",
                                "b64-bytes", "b64-mangled", "b64-mangled", "text", "text"])
     b64ish = st.text(alphabet="ABCDEFGHIJKLMNOPQRSTUVWXYZabcdefghijklmnopqrstuvwxyz0123456789+/=", max_size=100)
     texts = st.one_of(st.text(max_size=40), b64ish, b64ish, st.text(alphabet="AB=+/ \n", max_size=12),
